@@ -1368,7 +1368,7 @@ spfptr(const char *domain, const char *token)
 		if (dlen < dslen) {
 			continue;
 		} else if (dlen == dslen) {
-			if (strcmp(validdomains[j], checkdom) == 0) {
+			if (strcasecmp(validdomains[j], checkdom) == 0) {
 				r = SPF_PASS;
 				break;
 			}
@@ -1377,7 +1377,7 @@ spfptr(const char *domain, const char *token)
 			 * either an ancestor of a validated domain name or
 			 * if the <target-name> and a validated domain name
 			 * are the same. */
-			if (strcmp(validdomains[j] + dlen - dslen, checkdom) == 0) {
+			if (strcasecmp(validdomains[j] + dlen - dslen, checkdom) == 0) {
 				r = SPF_PASS;
 				break;
 			}
